@@ -59,7 +59,8 @@ class FeedServer(threading.Thread):
                         self.log.append(("send-error", str(e)))
                         break
                     self.log.append(("sent", len(data), gap))
-                    time.sleep(LONG_GAP if gap == "long" else SHORT_GAP)
+                    # "near": around the clients' 50 ms read timeout - which way the race goes must not matter
+                    time.sleep(LONG_GAP if gap == "long" else (0.03 + 0.04 * ((len(data) * 7919) % 100) / 100.0) if gap == "near" else SHORT_GAP)
                 time.sleep(LONG_GAP)
                 last = ci == len(self.script) - 1
                 if last:
